@@ -905,7 +905,12 @@ func (e *Env) evalCall(x *ECall) Val {
 					sig := obj.Type().(*types.Signature)
 					var args []Val
 					for i, a := range x.Args {
-						args = append(args, e.evalTyped(a, sig.Params().At(i).Type()))
+						PT := sig.Params().At(i).Type()
+						v := e.evalTyped(a, PT)
+						if pt, ok := v.T.Underlying().(*types.Pointer); ok && isStruct(PT) && types.Identical(pt.Elem(), PT) && v.P == nil {
+							v = c.loadStruct(e.stOf(v), PT, v.L[0])
+						}
+						args = append(args, v)
 					}
 					return packResults(c.detResults(fnKey(fn), sig.Results(), args), sig.Results())
 				}
